@@ -14,6 +14,7 @@ import (
 
 	"github.com/wkhere/bcl"
 
+	"verif/internal/bc"
 	"verif/internal/core"
 	"verif/internal/lang"
 	"verif/internal/mon"
@@ -774,6 +775,17 @@ func c16Source(r *rand.Rand) (src []byte, kind string) {
 		b.WriteString("}\nbind c16_target -> struct")
 		return []byte(b.String()), "case_variant_keys"
 	}
+	if r.Intn(14) == 0 {
+		// an operator applied to a child block with several fields: the error text must not vary
+		var b strings.Builder
+		b.WriteString("def c16_target { def inner { ")
+		for k, n := 0, 2+r.Intn(6); k < n; k++ {
+			fmt.Fprintf(&b, "f%d = %d; ", k, k)
+		}
+		op := []string{"inner + 1", "1 - inner", "inner * 2", "inner / inner", "inner < 1", "2 > inner", "inner == 1", "1 != inner", "- inner", "+ inner", "\"s\" + inner", "inner <= inner"}[r.Intn(12)]
+		fmt.Fprintf(&b, "}\n x = %s }\nbind c16_target -> struct", op)
+		return []byte(b.String()), "operator_on_a_child_block"
+	}
 	switch r.Intn(7) {
 	case 0:
 		// two keys folding to one struct field, two faulty fields
@@ -839,6 +851,43 @@ func c16LocalB() any {
 	return &cfg{}
 }
 
+// c16SelfInconsistent is set by c16Digest when one Prog behaves differently from one use to the next.
+var c16SelfInconsistent string
+
+// c16RedirectName returns the dump with the name operand of one DEFBLOCK / GETFIELD / SETFIELD / BIND
+// instruction redirected to another constant (same operand width), or nil.
+func c16RedirectName(dump []byte, p *bcl.Prog) []byte {
+	f, err := bc.Decode(dump)
+	if err != nil || len(f.Constants) < 2 || len(f.Constants) > 240 {
+		return nil
+	}
+	ins, err := bc.Instructions(f.Code)
+	if err != nil {
+		return nil
+	}
+	for _, in := range ins {
+		switch in.Op {
+		case bc.DEFBLOCK, bc.GETFIELD, bc.SETFIELD, bc.BIND:
+			// the nearest constant of another kind than string, else the next one
+			to := -1
+			for k := range f.Constants {
+				if _, isStr := f.Constants[k].(string); !isStr {
+					to = k
+					break
+				}
+			}
+			if to < 0 {
+				to = (in.A + 1) % len(f.Constants)
+			}
+			g := *f
+			g.Code = append([]byte{}, f.Code...)
+			g.Code[in.Off+1] = byte(to)
+			return bc.Encode(&g)
+		}
+	}
+	return nil
+}
+
 var c16BufferReuse string // set by c16Digest when the outcome depends on the caller's buffer after the call
 
 var c16Order = 0 // set from VERIF_C16_ORDER in fresh processes: the order of independent calls must not matter
@@ -880,6 +929,41 @@ func c16Digest(src []byte) string {
 		fmt.Fprintf(&b, "exec=%s|%s|%v|out=%s|log=%s|", canonBlocks(bl), canonBinding(bi), xerr, out.String(), lg.String())
 		d2, _, _, _ := dumpOf(p)
 		fmt.Fprintf(&b, "dump-after-exec-same=%v|", bytes.Equal(d, d2))
+		if !bytes.Equal(d, d2) && derr == nil && pan == "" {
+			c16SelfInconsistent = "the Prog dumps differently after it was executed"
+		}
+		// the same dump with one name operand redirected to another constant of the pool (a file someone edited):
+		// whatever that program does, it does it again the second time and the Prog stays what it was
+		if derr == nil && pan == "" {
+			if patched := c16RedirectName(d, p); patched != nil {
+				var o2, l2 bytes.Buffer
+				var q *bcl.Prog
+				var lerr error
+				lpan, _ := protect(func() {
+					q, lerr = bcl.LoadProg(bytes.NewReader(patched), "edited", bcl.OptOutput(&o2), bcl.OptLogger(&l2))
+				})
+				fmt.Fprintf(&b, "edited-dump-load=%v,%s|", lerr, lpan)
+				if lerr == nil && lpan == "" {
+					before, _, _, _ := dumpOf(q)
+					var outcomes [2]string
+					for k := 0; k < 2; k++ {
+						o2.Reset()
+						var bl2 []bcl.Block
+						var bi2 bcl.Binding
+						var e2 error
+						xpan, _ := protect(func() { bl2, bi2, e2 = bcl.Execute(q) })
+						outcomes[k] = fmt.Sprintf("%s|%s|%v|%s|%s", canonBlocks(bl2), canonBinding(bi2), e2, o2.String(), xpan)
+					}
+					after, _, _, _ := dumpOf(q)
+					fmt.Fprintf(&b, "edited-dump-exec=%x|", core.Hash(outcomes[0]))
+					if outcomes[0] != outcomes[1] {
+						c16SelfInconsistent = "a loaded Prog (one name operand redirected) gives " + core.Trunc(outcomes[0], 200) + " when executed and " + core.Trunc(outcomes[1], 200) + " when executed again"
+					} else if !bytes.Equal(before, after) {
+						c16SelfInconsistent = "a loaded Prog (one name operand redirected) dumps differently after it was executed"
+					}
+				}
+			}
+		}
 		// the caller reuses its input buffer after Parse returned: the Prog must not notice
 		in := append([]byte{}, src...)
 		var lgB, outB bytes.Buffer
@@ -954,7 +1038,7 @@ func init() {
 		Level: "exploration",
 		Rule: "repetition monitor: each case (source + targets) is run R times in one process (R = 30 quick / 100 thorough; Go randomises map iteration per range statement, so repetition exercises iteration order) and once in fresh processes with GOMAXPROCS 1, 2 and 16 (different hash seeds); the digest of everything observable (Dump hash, diagnostics, output, blocks, binding, Unmarshal target and error text for a struct and a slice target, dump before/after Execute) must be identical. " +
 			"History variants: A, B, A (the second A equals the first); results of a run are mutated before the next run of the same Prog. Cases are selected for order sensitivity: several keys folding to one struct field, several named children of one type into one field, several faulty fields at once, many constants and identifiers, several diagnostics, plus generated programs. " +
-			"distinct = hash of source; non-trivial = at least 2 runs were compared The digest also contains: a run with statistics and disassembly; Dump into a failing writer followed by another Dump; ParseFile under a scripted reader with a read error behind a lexical failure and varying perturbation (error, log, whether a Prog came back); two same-named local struct types unmarshalled in one order here and the other order in one fresh process. A Prog parsed from a buffer that the caller overwrites afterwards must equal one parsed from an untouched buffer. Source kinds also: 40..100 faulty blocks bound to a slice. Also: blocks whose keys differ only in letter case or underscores and designate one struct field (which value wins and which key an error names must not vary).",
+			"distinct = hash of source; non-trivial = at least 2 runs were compared The digest also contains: a run with statistics and disassembly; Dump into a failing writer followed by another Dump; ParseFile under a scripted reader with a read error behind a lexical failure and varying perturbation (error, log, whether a Prog came back); two same-named local struct types unmarshalled in one order here and the other order in one fresh process. A Prog parsed from a buffer that the caller overwrites afterwards must equal one parsed from an untouched buffer. Source kinds also: 40..100 faulty blocks bound to a slice. Also: blocks whose keys differ only in letter case or underscores and designate one struct field (which value wins and which key an error names must not vary). Also: operators applied to a child block with 2..7 fields (the error text must not vary); every accepted program's dump is also loaded with one name operand redirected to another constant and executed twice: both executions give the same outcome (whatever it is) and the Prog dumps the same before and after.",
 		Assumptions:   []string{"the digest renders maps with sorted keys, so only the library's own order dependence can show"},
 		MinNontrivial: 300,
 		Run: func(c *core.Ctx) {
@@ -1018,9 +1102,13 @@ func init() {
 				}
 				c.Begin(i)
 				c.NoteInput("src", src)
-				c16BufferReuse = ""
+				c16BufferReuse, c16SelfInconsistent = "", ""
 				first := c16Digest(src)
 				c.Eval(1)
+				if c16SelfInconsistent != "" {
+					c.Violation("same-prog-differs-from-use-to-use", c16SelfInconsistent, map[string]any{"source": core.Trunc(string(src), 1500)})
+					continue
+				}
 				if c16BufferReuse != "" {
 					c.Violation("depends-on-callers-buffer", c16BufferReuse, map[string]any{"source": core.Trunc(string(src), 1500)})
 					continue
